@@ -60,6 +60,39 @@ ROUTES = [('crystal', 'Crystal.pos2cart'), ('crystal', 'Crystal.unit2cart'), ('c
           ('crystal', 'GroupOp.'), ('crystalStars', 'PairState.'), ('cluster', 'ClusterSite.')]
 
 
+def _cell_split(model, rep):
+    """A position is handed out as (lattice vector, in-cell part).  ``incell`` decides the cell with its own tolerance
+    (``floor(v + 1e-8)``: a coordinate of -1e-16 belongs to the cell it is the corner of), so the lattice vector has to be the
+    remainder with respect to *that* in-cell value -- ``round(x - incell(x))``, ``(x - incell(x)).astype(int)`` -- and not an
+    independent ``floor(x)`` / ``round(x)``, which disagrees with ``incell`` by a whole lattice vector exactly for coordinates
+    within rounding noise of a cell face.  Located: every return of a pair whose second element is ``incell(x)``; verified:
+    the first element contains ``x - incell(x)``."""
+    from ._common import resolve_local
+    rep.rule('cell-split-consistent', 'the lattice vector returned next to incell(x) is the remainder x - incell(x), not an independent floor')
+    n = 0
+    mod = model.mod('crystal')
+    for q, fn in mod.functions.items():
+        for r in walk_local(fn):
+            if not (isinstance(r, ast.Return) and isinstance(r.value, ast.Tuple) and len(r.value.elts) == 2):
+                continue
+            b = resolve_local(fn, r.value.elts[1])
+            if not (isinstance(b, ast.Call) and unparse(b.func) == 'incell' and len(b.args) == 1):
+                continue
+            x = unparse(b.args[0])
+            a = unparse(resolve_local(fn, r.value.elts[0]))
+            n += 1
+            if x not in a:
+                rep.undecided('%s: the lattice part %s returned next to incell(%s) does not mention %s' % (q, a[:50], x[:30], x[:30]))
+                continue
+            ok = ('%s - incell(%s)' % (x, x)) in a
+            rep.ob('cell-split-consistent', mod, r, '%s returns (%s, incell(%s))' % (q, a[:70], x[:40]), ok,
+                   '' if ok else 'the lattice vector is computed from %s without reference to the in-cell value returned with it: for a '
+                   'coordinate within rounding noise below an integer, incell (tolerance 1e-8) keeps it in the upper cell while an '
+                   'independent floor / round puts the lattice vector one cell lower -- the pair names a point a lattice vector away'
+                   % x[:40], engine='siblings', qual=q)
+    rep.floor('(lattice vector, in-cell) returns', n, 2)
+
+
 def run(model, rep, tier):
     rep.explanation = __doc__.strip()
     from ._common import caches_for
@@ -68,6 +101,7 @@ def run(model, rep, tier):
     rep.rule('operator-domain', 'an operator is applied only to vectors of its domain kind; +/- combine equal kinds')
     rep.rule('return-kind', 'the value returned has the documented kind')
     rep.rule('field-kind', 'constructed value objects receive fields of the documented kind')
+    _cell_split(model, rep)
     nchecked = 0
     for mname, q, params, ret in TABLE:
         mod = model.mod(mname)
